@@ -121,12 +121,12 @@ theorem andThen_convert_same {env : Env} (hl : env.Lawful) (tr : Tr) (qt u : Sym
   | ok y => simp [hl.convert_same]
   | error e => rfl
 
-theorem matchDict_matched {env : Env} (hl : env.Lawful) :
+theorem matchDict_matched {env : Env} (hl : env.Lawful) (dv : Bool) :
     ∀ (es : List Entry) (found : Found) (tr : Tr),
       (∀ e ∈ es, ∃ t, env.qtype e.cat = .ok t) →
       (∀ e1 ∈ es, ∀ e2 ∈ es, env.qtype e1.cat = env.qtype e2.cat → e1.unit = e2.unit) →
       (∀ e ∈ es, ∀ t u, env.qtype e.cat = .ok t → found.get t = some u → u = e.unit) →
-      ∃ f', matchDict env found es tr = .ok (f', es, tr)
+      ∃ f', matchDict env dv found es tr = .ok (f', es, tr)
   | [], found, tr, _, _, _ => ⟨found, rfl⟩
   | e :: es, found, tr, hk, hs, hf => by
     obtain ⟨t, ht⟩ := hk e (by simp)
@@ -134,7 +134,7 @@ theorem matchDict_matched {env : Env} (hl : env.Lawful) :
     simp only [ht]
     cases hg : found.get t with
     | none =>
-      have ih := matchDict_matched hl es ((t, e.unit) :: found) tr
+      have ih := matchDict_matched hl dv es ((t, e.unit) :: found) tr
         (fun e' he' => hk e' (by simp [he']))
         (fun e1 h1 e2 h2 => hs e1 (by simp [h1]) e2 (by simp [h2]))
         (fun e' he' t' u ht' hu => by
@@ -152,26 +152,26 @@ theorem matchDict_matched {env : Env} (hl : env.Lawful) :
     | some used =>
       have hu : used = e.unit := hf e (by simp) t used ht hg
       subst hu
-      have hc : convertMatchingExp env t e.unit e.unit e.exp = .ok (env.convert t e.unit e.unit) := by
+      have hc : convertMatchingExp env t e.unit e.unit e.exp dv = .ok (env.convert t e.unit e.unit) := by
         simp [convertMatchingExp]
-      have ih := matchDict_matched hl es found tr
+      have ih := matchDict_matched hl dv es found tr
         (fun e' he' => hk e' (by simp [he']))
         (fun e1 h1 e2 h2 => hs e1 (by simp [h1]) e2 (by simp [h2]))
         (fun e' he' t' u ht' hu => hf e' (by simp [he']) t' u ht' hu)
       obtain ⟨f', hf'⟩ := ih
       exact ⟨f', by simp [hc, andThen_convert_same hl, hf']⟩
 
-theorem matchDict_nil (env : Env) (found : Found) (tr : Tr) :
-    matchDict env found [] tr = .ok (found, [], tr) := rfl
+theorem matchDict_nil (env : Env) (dv : Bool) (found : Found) (tr : Tr) :
+    matchDict env dv found [] tr = .ok (found, [], tr) := rfl
 
 theorem matchQuantities_empty_right {env : Env} (hl : env.Lawful) {q : Quantity} (h : Matched env q) :
     matchQuantities env q [] = .ok (q, [], Tr.ident, Tr.ident) := by
-  obtain ⟨f, hf⟩ := matchDict_matched hl q [] Tr.ident h.known h.same (fun _ _ _ _ _ hu => by simp [Found.get] at hu)
+  obtain ⟨f, hf⟩ := matchDict_matched hl (decide (1 < q.length)) q [] Tr.ident h.known h.same (fun _ _ _ _ _ hu => by simp [Found.get] at hu)
   simp [matchQuantities, hf, matchDict]
 
 theorem matchQuantities_empty_left {env : Env} (hl : env.Lawful) {q : Quantity} (h : Matched env q) :
     matchQuantities env [] q = .ok ([], q, Tr.ident, Tr.ident) := by
-  obtain ⟨f, hf⟩ := matchDict_matched hl q [] Tr.ident h.known h.same (fun _ _ _ _ _ hu => by simp [Found.get] at hu)
+  obtain ⟨f, hf⟩ := matchDict_matched hl (decide (1 < q.length)) q [] Tr.ident h.known h.same (fun _ _ _ _ _ hu => by simp [Found.get] at hu)
   simp [matchQuantities, hf, matchDict]
 
 /-! ### `Sum` / `Subtract` with the empty quantity -/
@@ -520,14 +520,18 @@ def exRow (qt u : Sym) (scale : Rat) : UnitRow :=
   { qtype := qt, name := u, sym := u, ok := true, toBase := ⟨0, scale, 1, 0⟩, fromBase := ⟨0, 1, scale, 0⟩,
     hasConvTo := true, hasConvFrom := true, annTo := none, annFrom := none, defaultCat := 0, digits := 0 }
 
+/-- a unit with an offset: `base = off + scale · x` (like degC against K) -/
+def exRowOff (qt u : Sym) (scale off : Rat) : UnitRow :=
+  { exRow qt u scale with toBase := ⟨off, scale, 1, 0⟩, fromBase := ⟨-off, 1, scale, 0⟩ }
+
 def exCat (c qt u : Sym) : CatRow :=
   { name := c, qtype := qt, validUnits := none, defaultUnit := u, defaultValue := 0, minV := none, maxV := none,
     minExcl := false, maxExcl := false, caption := 0 }
 
-/-- quantity types 1 (units 11 = base, 12 = 1/100 of it) and 2 (units 21 = base, 22 = 60 times it);
+/-- quantity types 1 (units 11 = base, 12 = 1/100 of it, 13 = base shifted by 273) and 2 (units 21 = base, 22 = 60 times it);
 categories 101, 102 of type 1 and 103 of type 2 -/
 def exDb : Db :=
-  { units := [exRow 1 11 1, exRow 1 12 (1 / 100), exRow 2 21 1, exRow 2 22 60],
+  { units := [exRow 1 11 1, exRow 1 12 (1 / 100), exRowOff 1 13 1 273, exRow 2 21 1, exRow 2 22 60],
     cats := [exCat 101 1 11, exCat 102 1 11, exCat 103 2 21] }
 
 def exEnv : Env := Env.ofDb exDb
